@@ -678,6 +678,71 @@ def genutil_norm(name):
     m = _re.search(r'(yy_?[a-z_]+|switch_streams|ctor_common)', name)
     return m.group(1) if m else name
 
+def r8(ctx):
+    """R8: an explicit %option X / noX overrides the detection of X and of nothing else.  For every ctrl field
+    `<x>_really_used` (a trit set by %option <x>): in readin() each constant store to the detection flag of <x> (the global
+    whose name starts with <x>: reject, yymore_used) that is controlled by a `_really_used` test is controlled by the test of
+    its OWN field, with the matching value (== true -> store true, == false -> store false), and both stores exist."""
+    rep = ctx.rep; prog = ctx.flex
+    f = prog.fn('readin')
+    if f is None: rep.broken('readin() not found')
+    res = ir.Resolver(f); cfg = prog.cfg(f, cut=False)
+    fields = set()
+    for x in f.ins:
+        if x.op == 'load':
+            c = ir.loc_class(res.loc(x.ops[0]))
+            if c and c[0] == 'field' and c[2].endswith('_really_used'): fields.add(c[2])
+    if len(fields) < 2: rep.broken('C19.R8: readin() tests %d *_really_used fields (2 expected)' % len(fields))
+    n = 0
+    for fld in sorted(fields):
+        stem = fld[:-len('_really_used')]
+        flags = sorted({res.loc(x.ops[1])[1] for x in f.ins if x.op == 'store' and res.loc(x.ops[1])[0] == 'global' and res.loc(x.ops[1])[1].startswith(stem)})
+        if len(flags) != 1: rep.broken('C19.R8: no unique detection flag for %s in readin() (%s)' % (fld, flags))
+        flag = flags[0]
+        seen = {}
+        for x in f.ins:
+            if x.op != 'store' or res.loc(x.ops[1]) != ('global', flag) or x.ops[0][0] != 'int': continue
+            ctl = []
+            for br, t in cfg.control_deps(x.blk):
+                con = S_edge(f, br, t)
+                if con is None: continue
+                d = f.def_of(con[1]) if con[1][0] == 'reg' else None
+                while d is not None and d.op in ('sext', 'zext', 'trunc'): d = f.def_of(d.ops[0])
+                if d is None or d.op != 'load': continue
+                c = ir.loc_class(res.loc(d.ops[0]))
+                if c and c[0] == 'field' and c[2].endswith('_really_used'): ctl.append((c[2], con[0], con[2]))
+            if not ctl: continue          # ordinary detection / defaults: not an override
+            n += 1
+            val = 1 if x.ops[0][1] else 0
+            key = 'C19.R8:main.c:readin:%s:override' % flag
+            own = [c for c in ctl if c[0] == fld]
+            if not own:
+                rep.fail('C19.R8', key + ':wrong-option', where(x), 'readin() sets %s = %d under a test of ctrl.%s instead of ctrl.%s: %%option %s%s is ignored (or applied) depending on another option' % (
+                    flag, val, ctl[0][0], fld, '' if val else 'no', stem), replay_input='%%option %s%s' % ('' if val else 'no', stem))
+            elif not any(c[1] == 'eq' and c[2] == ('int', val) for c in own):
+                rep.fail('C19.R8', key + ':wrong-value', where(x), 'readin() sets %s = %d on the edge %s of ctrl.%s' % (flag, val, [(c[1], c[2]) for c in own], fld))
+            else:
+                rep.ok('C19.R8', 'readin(): %s = %d exactly under ctrl.%s == %d' % (flag, val, fld, val)); seen[val] = True
+        for val in (0, 1):
+            if val not in seen:
+                n += 1
+                rep.fail('C19.R8', 'C19.R8:main.c:readin:%s:override:missing-%s' % (flag, 'true' if val else 'false'), fwhere(f),
+                         'readin() has no store %s = %d under ctrl.%s == %d: %%option %s%s does not override the detection' % (flag, val, fld, val, '' if val else 'no', stem))
+    return n
+
+def S_edge(f, br, t):
+    """(pred, value, constant) constraint that holds on the edge br -> t for `icmp eq/ne value, const` conditions"""
+    if not br.ops: return None
+    d = f.def_of(br.ops[0])
+    if d is None or d.op != 'icmp' or d.pred not in ('eq', 'ne'): return None
+    a, b = d.ops
+    if b[0] != 'int': a, b = b, a
+    if b[0] != 'int': return None
+    tn = t.name if hasattr(t, 'name') else t
+    taken_true = (tn == br.targets[0])
+    pred = d.pred if taken_true else ('ne' if d.pred == 'eq' else 'eq')
+    return (pred, a, b)
+
 def run(ctx):
     rep = ctx.rep
     sp = lex.parse_spec(ctx.art.source('scan.l'))
@@ -688,6 +753,7 @@ def run(ctx):
     n5 = r5(ctx)
     n6 = r6(ctx)
     r7(ctx)
+    r8(ctx)
     rep.setcount('flexopt_enumerators', len(en)); rep.setcount('flexopts_entries', len(tbl))
     rep.setcount('plumbing_symbols', len(plumbing)); rep.setcount('cli_vs_option_pairs', n3)
     rep.floor('C19.R1', 100, '94 enumerators + 14 %option tokens')
@@ -696,6 +762,7 @@ def run(ctx):
     rep.floor('C19.R4', 25, 'noyy* options in the nr/r variants')
     rep.floor('C19.R5', 12, 'options that carry a value')
     rep.floor('C19.R6', 10, 'table options x documented default of -7/-8')
+    rep.floor('C19.R8', 4, 'reject / yymore override stores in readin')
     rep.floor('C19.R7', 100, 'variants with internal yy_create_buffer call sites')
     rep.undecided += ['the observable run-time effect of each option (value-level)', 'documentation agreement of option descriptions',
                       'options that exist in only one spelling are compared with nothing']
